@@ -16,7 +16,8 @@ EXPLANATION = (
     "the SCOPES oracle).  R07.2: FilteringVisitor never filters a __future__ import (CFG guard domination) and "
     "sort_imports places the future group first.  R07.3: the selector of remove_unused_imports is a union that "
     "includes the __all__ list and the literal '__all__'.  R07.4: every concrete ImportInfo subclass has a "
-    "visit<Name> method on the base visitor (dispatch is by class name).  Idempotence, re-emitted text and sort keys "
+    "visit<Name> method on the base visitor (dispatch is by class name).  R07.5: the used-name recorder adds every "
+    "dotted prefix of a used primary (the one-time selector needs prefix-closure).  Idempotence, re-emitted text and sort keys "
     "are not decided."
 )
 ASSUMPTIONS = ["scope-opening constructors without a handler in the finder (async def, lambda, comprehensions) only make more names count as used: conservative, not armed"]
@@ -139,3 +140,49 @@ def check(ctx, res) -> None:
         res.add("R07.4", c.name, ok, c.where, f"{prefix}{c.name} exists on the base visitor" if ok else
                 f"ImportInfoVisitor has no {prefix}{c.name}: dispatching an import statement of that kind raises AttributeError in every import action")
     res.floor("R07.4", "ImportInfo subclasses", len(subs), 3)
+
+    # ---- R07.5 the used-name set is prefix-closed
+    # An `import a.b.c` statement is kept when one of its dotted prefixes is in the used-name set and has not been
+    # claimed by an earlier import (one-time selector).  That only works if, for a used primary a.b.c.d, EVERY prefix
+    # a, a.b, a.b.c, ... is recorded.
+    au = idx.need_func(GLOBAL + ".add_unbound")
+    p0 = [a.arg for a in au.node.args.args][1]
+    parts = None
+    for nd in walk_local(au.node):
+        if isinstance(nd, ast.Assign) and isinstance(nd.targets[0], ast.Name) and isinstance(nd.value, ast.Call) \
+                and call_name(nd.value) == "split" and isinstance(nd.value.func.value, ast.Name) and nd.value.func.value.id == p0:
+            parts = nd.targets[0].id
+    kinds = []
+    for c in calls_in(au.node):
+        if not (isinstance(c.func, ast.Attribute) and c.func.attr == "add" and is_self_attr(c.func.value) and c.args):
+            continue
+        a = c.args[0]
+        kind = "unknown"
+        if isinstance(a, ast.Name) and a.id == p0:
+            kind = "full"
+        elif isinstance(a, ast.Subscript) and isinstance(a.slice, ast.Constant) and a.slice.value == 0:
+            kind = "root"
+        elif isinstance(a, ast.Call) and call_name(a) == "join" and a.args and isinstance(a.args[0], ast.Subscript) \
+                and isinstance(a.args[0].slice, ast.Slice):
+            sl = a.args[0].slice
+            # names[: i + 1] (or names[:i]) inside a loop whose variable i ranges over range(len(names)) (or 1..len)
+            ivars = {x.id for x in ast.walk(sl) if isinstance(x, ast.Name)}
+            loops = [l for l in walk_local(au.node) if isinstance(l, ast.For) and isinstance(l.target, ast.Name) and l.target.id in ivars
+                     and isinstance(l.iter, ast.Call) and call_name(l.iter) == "range"
+                     and any(isinstance(y, ast.Call) and call_name(y) == "len" for y in ast.walk(l.iter))
+                     and any(x is c for x in ast.walk(l))]
+            kind = "all-prefixes" if loops and sl.lower is None else "unknown"
+        elif isinstance(a, ast.Name) and a.id != p0:
+            # loop variable accumulating prefixes (prefix = prefix + "." + part) is not recognised: undecided
+            kind = "unknown"
+        kinds.append(kind)
+    if not kinds:
+        raise AnalysisError("anchor=_GlobalUnboundNameFinder.add_unbound records nothing")
+    if "all-prefixes" in kinds:
+        res.ok("R07.5", "add_unbound|prefix-closed", au.where, "every dotted prefix of a used primary is recorded")
+    elif "unknown" in kinds:
+        res.undecided("R07.5", "add_unbound|prefix-closed", au.where, f"recording shape not recognised: {kinds}")
+    else:
+        res.fail("R07.5", "add_unbound|prefix-closed", au.where,
+                 f"add_unbound records only {sorted(set(kinds))} of a used dotted name, not every prefix: with `import pkg.alpha` and `import pkg.beta.tools` "
+                 "(used as pkg.beta.tools.f()), the first import claims `pkg` and the second matches no recorded name, so organize-imports deletes an import that is used")
